@@ -14,6 +14,7 @@ mod c04;
 mod c01;
 mod c06;
 mod c17;
+mod c03;
 
 fn main() {
     // silence the default panic message: panics are observations here
@@ -33,6 +34,7 @@ fn main() {
         "c04" => c04::run(rest),
         "c06" | "c07" => c06::run(rest),
         "c17" => c17::run(rest),
+        "c03" => c03::run(rest),
         "c01" | "c02" => c01::run(rest),
         other => {
             eprintln!("unknown subcommand {other}");
